@@ -201,6 +201,13 @@ func withProcs(n int, f func()) {
 // traced runs f under a widening tracer of the given level and records the
 // observed interleaving shape in r.
 func traced(r *core.Result, seed int64, level int, set string, f func(t *mon.Tracer)) {
+	if mon.RaceEnabled && level == 0 {
+		// "pure race" run: no tracer is installed, so the hook adds no
+		// synchronisation that could hide a race from the detector.
+		f(mon.Detached())
+		r.Count("pure_race_runs", 1)
+		return
+	}
 	t := mon.Begin(seed, level)
 	defer mon.End()
 	f(t)
